@@ -46,6 +46,16 @@ struct ScriptSource {
         else octet_source_init(&src, &ScriptSource::octet_cb, this);
     }
     ScriptSource(const ScriptSource &) = delete;
+    // the getbuffer extension as sts_atmost_via_source() uses it: the source lends a scratch region ([offset, used) of the returned
+    // descriptor) into which its own chunk callback reads before the octets are handed to the sink
+    std::vector<uint8_t> scratch;
+    void lend(size_t g) { scratch.assign(g + 2, 0xee); src.ext.getbuffer = &ScriptSource::getbuffer_cb; }
+    bool scratch_guard_ok() const { return scratch.empty() || (scratch.front() == 0xee && scratch.back() == 0xee); }
+    static ByteBuffer getbuffer_cb(Source *s) {
+        ScriptSource *me = (ScriptSource *)s->driver;
+        ByteBuffer b; b.data = me->scratch.data(); b.size = me->scratch.size(); b.offset = 1; b.used = me->scratch.size() - 1;   // one guard octet on either side
+        return b;
+    }
     ssize_t transfer(void *out, size_t n) {
         vp::tick();
         calls++;
